@@ -216,6 +216,14 @@ def _items_in(toks, ci, lo, hi):
             yield ("impl", name, start, end + 1, (k, ob, end))
             k = end + 1
             continue
+        if t.kind == "ident" and k + 2 < hi and toks[ci[k + 1]].text == "!" and toks[ci[k + 2]].text in OPEN and kw != "macro_rules":
+            end = _match(toks, ci, k + 2)
+            e2 = end
+            if e2 + 1 < hi and toks[ci[e2 + 1]].text == ";":
+                e2 += 1
+            yield ("macro", t.text, start, e2 + 1, (k, k + 2, end))
+            k = e2 + 1
+            continue
         if kw == "use" or (t.kind == "ident" and kw in ("extern",)):
             # skip to `;`
             while k < hi and toks[ci[k]].text != ";":
@@ -266,7 +274,7 @@ def locate(toks, path):
             return ok[0]
         found = cands[nth - 1]
         if depth_i < len(parts) - 1:
-            if found[0] == "impl":
+            if found[0] in ("impl", "macro"):
                 k, ob, end = found[4]
             else:
                 ob = _find_block_open(toks, ci, found[2])
@@ -373,6 +381,42 @@ def n3_attrs_and_vis(pieces, file, applied, keepderive=None):
     if keepderive:
         pieces.insert(0, Piece(f"#[derive({', '.join(keepderive)})]\n", "rw", pieces[0].line if pieces else 0, rule="N14", tkind="attr"))
         applied.add("N14", file, pieces[1].line if len(pieces) > 1 else 0, "derive " + ",".join(keepderive))
+
+
+def n3_pubfields(pieces, file, applied):
+    """struct fields without visibility get `pub` (single-file build: contracts may only mention public fields)"""
+    si = sig(pieces)
+    ob = next((k for k, i in enumerate(si) if pieces[i].text == "{"), None)
+    if ob is None:
+        raise ExtractError("pubfields: not a braced struct")
+    cb = _pmatch(pieces, si, ob, None)
+    depth = 0
+    n = 0
+    k = ob + 1
+    starts = []
+    at_start = True
+    while k < cb:
+        t = pieces[si[k]]
+        if t.tkind == "punct" and t.text in OPEN:
+            depth += 1
+        elif t.tkind == "punct" and t.text in CLOSE:
+            depth -= 1
+        elif depth == 0 and t.text == ",":
+            at_start = True
+            k += 1
+            continue
+        elif depth == 0 and t.text == "<":
+            pass
+        if at_start and depth == 0 and t.tkind == "ident":
+            if t.text != "pub" and k + 1 < cb and pieces[si[k + 1]].text == ":":
+                starts.append(si[k])
+            at_start = False
+        k += 1
+    for i in reversed(starts):
+        ln = pieces[i].line
+        pieces[i:i] = [Piece("pub", "rw", ln, rule="N3", tkind="ident"), Piece(" ", "rw", ln, rule="N3", tkind="ws")]
+        n += 1
+    applied.add("N3", file, pieces[0].line, f"{n} private field(s) made pub")
 
 
 def n1_async(pieces, file, applied):
@@ -599,6 +643,42 @@ def n12_break_value(pieces, name, file, applied):
     applied.add("N12", file, line, f"let {name} = loop {{ break E }} -> deferred initialisation, {len(edits)} break(s)")
 
 
+def n17_mut_self(pieces, file, applied):
+    """`fn f(mut self, ..) { B }` -> `fn f(self, ..) { let mut self_ = self; B[self := self_] }`"""
+    si = sig(pieces)
+    hit = None
+    for k in range(len(si) - 1):
+        if pieces[si[k]].text == "mut" and pieces[si[k + 1]].text == "self" and pieces[si[k - 1]].text == "(":
+            hit = k
+            break
+    if hit is None:
+        raise ExtractError("N17: `(mut self` not found")
+    line = pieces[si[hit]].line
+    pieces[si[hit]].dead = True
+    if pieces[si[hit] + 1].tkind == "ws":
+        pieces[si[hit] + 1].dead = True
+    # body
+    depth = 0
+    body = None
+    for k in range(hit, len(si)):
+        t = pieces[si[k]]
+        if t.tkind == "punct" and t.text in "([":
+            depth += 1
+        elif t.tkind == "punct" and t.text in ")]":
+            depth -= 1
+        elif t.text == "{" and t.tkind == "punct" and depth <= 0:
+            body = k
+            break
+    if body is None:
+        raise ExtractError("N17: no body")
+    for k in range(body + 1, len(si)):
+        if pieces[si[k]].text == "self" and pieces[si[k]].tkind == "ident":
+            pieces[si[k]] = Piece("self_", "rw", pieces[si[k]].line, rule="N17", tkind="ident")
+    ob = si[body]
+    pieces[ob + 1:ob + 1] = [Piece(t.text, "rw", line, rule="N17", tkind=t.kind) for t in lex(" let mut self_ = self;")]
+    applied.add("N17", file, line, "by-value `mut self` receiver: `let mut self_ = self;` and self renamed in the body")
+
+
 def name_return(pieces, file):
     """`-> T` => `-> (r: T)` in the signature of a fn item"""
     si = sig(pieces)
@@ -808,6 +888,12 @@ class Generator:
                         elif d.startswith("n12 "):
                             opts.setdefault("n12", []).append(d[4:].strip())
                             cur = None
+                        elif d == "pubfields":
+                            opts["pubfields"] = True
+                            cur = None
+                        elif d == "n17":
+                            opts["n17"] = True
+                            cur = None
                         elif d == "trusted":
                             opts["trusted"] = True
                             cur = None
@@ -832,6 +918,15 @@ class Generator:
                 if j >= len(lines):
                     raise ExtractError(f"//@extract {kv.get('id')} without //@end")
                 self.extract(kv, opts, blocks)
+                i = j + 1
+            elif s.startswith("//@fragment "):
+                kv = parse_kv(s[len("//@fragment "):])
+                j = i + 1
+                hdr = []
+                while j < len(lines) and not lines[j].strip().startswith("//@end"):
+                    hdr.append(lines[j])
+                    j += 1
+                self.fragment(kv, hdr)
                 i = j + 1
             elif s.startswith("//@"):
                 raise ExtractError(f"unknown directive: {s}")
@@ -880,6 +975,10 @@ class Generator:
             apply_rewrite(pieces, rule, pat, rep, count, file, self.applied)
         for nm in opts.get("n12", []):
             n12_break_value(pieces, nm, file, self.applied)
+        if opts.get("n17"):
+            n17_mut_self(pieces, file, self.applied)
+        if opts.get("pubfields"):
+            n3_pubfields(pieces, file, self.applied)
         inj = {}   # piece index -> list of (position 'before'|'after', text, clause info)
 
         def add_inj(idx, pos, block_lines, default_id):
@@ -1086,6 +1185,77 @@ class Generator:
             "norm_sha": hashlib.sha256(" ".join(norm_tokens).encode()).hexdigest(),
             "name": loc["name"],
         })
+        self._fidelity(iid, gen_start, gen_end, norm_tokens)
+
+    def fragment(self, kv, hdr):
+        """N11: the statements of a function between two anchors become the body of a function whose
+        header (signature + contract) is given in the template."""
+        file, path, iid = kv["file"], kv["path"], kv["id"]
+        tags = tuple(kv.get("tags", "").split(",")) if kv.get("tags") else ()
+        src_text, toks = self.src(file)
+        loc = locate(toks, path)
+        ci = loc["ci"]
+        a, b = ci[loc["start"]], ci[loc["end"] - 1] + 1
+        pieces = pieces_from(toks, a, b)
+        n3_attrs_and_vis(pieces, file, self.applied)
+        n2_logging(pieces, file, self.applied)
+        f = find_pattern(pieces, kv["from"])
+        t = find_pattern(pieces, kv["to"])
+        if len(f) != 1 or len(t) != 1:
+            raise ExtractError(f"{iid}: fragment anchors must match exactly once (from: {len(f)}, to: {len(t)})")
+        si = f[0][3]
+        lo, hi = si[f[0][0]], si[t[0][0]]
+        if lo >= hi:
+            raise ExtractError(f"{iid}: fragment anchors out of order")
+        frag = [p for p in pieces[lo:hi]]
+        item_src = "".join(p.text for p in frag)
+        sha = hashlib.sha256(item_src.encode()).hexdigest()
+        first_line = pieces[lo].line
+        gen_start = len(self.out) + 1
+        cid, ctags = f"{iid}.spec", tags
+        bl = list(hdr)
+        ids = [None] * len(bl)
+        nxt = (cid, tags)
+        for n in range(len(bl) - 1, -1, -1):
+            m = CLAUSE_RE.search(bl[n])
+            if m:
+                nxt = (m.group(1), tuple(m.group(2).split(",")) if m.group(2) else tags)
+                bl[n] = bl[n][:m.start()].rstrip()
+            ids[n] = nxt
+        for l, (c, ct) in zip(bl, ids):
+            cl = self.clauses.setdefault(c, {"tags": list(ct), "text": "", "item": iid, "fn": path + " (fragment)", "file": file})
+            cl["text"] = (cl["text"] + " " + l.strip()).strip()
+            self.out.append((l + f" /*@{c}*/", {"k": "inj", "clause": c, "tags": list(ct), "item": iid}))
+        self.out.append(("{ /*@N11 fragment start*/", {"k": "inj", "clause": f"{iid}.frame", "tags": list(tags), "item": iid}))
+        if self.canary:
+            n = len(self.canaries) + 1
+            self.canaries.append({"id": f"CANARY.{n}", "item": iid, "where": "fragment entry"})
+            self.out.append((f"        assert(vcanary({n})); /*@CANARY.{n}*/", {"k": "inj", "clause": f"CANARY.{n}", "tags": list(tags), "item": iid}))
+        buf = ""
+        line = first_line
+        info = {"k": "src", "file": file, "line": line}
+        for p in frag:
+            if p.dead:
+                continue
+            parts = p.text.split("\n")
+            for n, part in enumerate(parts):
+                if n > 0:
+                    self.out.append((buf, {"k": "src", "file": file, "line": line}))
+                    buf = ""
+                    line = p.line + n
+                if part.strip() and not buf.strip():
+                    line = p.line + n
+                buf += part
+        if buf.strip():
+            self.out.append((buf, {"k": "src", "file": file, "line": line}))
+        self.out.append(("} /*@N11 fragment end*/", {"k": "inj", "clause": f"{iid}.frame", "tags": list(tags), "item": iid}))
+        gen_end = len(self.out)
+        norm_tokens = [p.text for p in frag if not p.dead and p.tkind not in ("ws", "lcomment", "bcomment")]
+        name = kv.get("name", iid)
+        self.applied.add("N11", file, first_line, f"fragment of {path} between `{kv['from']}` and `{kv['to']}` emitted as fn {name}")
+        self.items.append({"id": iid, "file": file, "path": path + " (fragment)", "kind": "fn", "line": first_line, "sha256": sha,
+                           "tags": list(tags), "trusted": False, "gen_lines": [gen_start, gen_end], "awaits": 0, "loops": 0,
+                           "norm_sha": hashlib.sha256(" ".join(norm_tokens).encode()).hexdigest(), "name": name})
         self._fidelity(iid, gen_start, gen_end, norm_tokens)
 
     def _fidelity(self, iid, gs, ge, norm_tokens):
